@@ -231,6 +231,39 @@ def bv_to_py(model, t, signed=True):
     return n
 
 
+CROSS = {"n": 0, "checked": 0, "agree": 0, "skipped": 0, "disagree": []}
+
+
+def cross_check_cvc5(solver, verdict):
+    """second opinion: the same query as SMT-LIB2 through cvc5 (sampled: the first 5 queries of a process, then every 25th; all of
+    them with VERIF_CVC5=all). A disagreement is an engine error - it is recorded here and raised by the caller's bookkeeping."""
+    mode = os.environ.get("VERIF_CVC5") or ("sample" if os.environ.get("VERIF_TIER") == "thorough" else "light")
+    if mode == "off" or verdict not in ("sat", "unsat"):
+        return
+    CROSS["n"] += 1
+    every, first = (25, 5) if mode == "sample" else (200, 3)
+    if mode != "all" and not (CROSS["n"] <= first or CROSS["n"] % every == 0):
+        return
+    out_text = ""
+    try:
+        text = "(set-logic ALL)\n" + solver.to_smt2()
+        r = subprocess.run(["cvc5", "--lang", "smt2", "--tlimit=20000"], input=text, capture_output=True, text=True, timeout=40)
+        out_text = r.stdout or ""
+        out = out_text.strip().splitlines()
+        ans = out[0].strip() if out else ""
+    except Exception:
+        ans = ""
+    if ans not in ("sat", "unsat") or "(error" in out_text:
+        CROSS["skipped"] += 1
+        return
+    CROSS["checked"] += 1
+    if ans == verdict:
+        CROSS["agree"] += 1
+    else:
+        CROSS["disagree"].append((verdict, ans, text[:4000]))
+        core.log(f"[cvc5] DISAGREEMENT: z3 says {verdict}, cvc5 says {ans}")
+
+
 def check(pc, prop_negation, timeout_ms=60000):
     """is (pc and prop_negation) satisfiable? returns ('sat', model) | ('unsat', None) | ('unknown', None), seconds"""
     s = z3.Solver()
@@ -240,9 +273,11 @@ def check(pc, prop_negation, timeout_ms=60000):
     t = time.time()
     r = s.check()
     dt = time.time() - t
+    verdict = "sat" if r == z3.sat else ("unsat" if r == z3.unsat else "unknown")
+    cross_check_cvc5(s, verdict)
     if r == z3.sat:
         return "sat", s.model(), dt
-    return ("unsat" if r == z3.unsat else "unknown"), None, dt
+    return verdict, None, dt
 
 
 # ---------------------------------------------------------------- K-take
